@@ -99,6 +99,13 @@ func c14ForEach(r *rand.Rand) Case {
 	if r.Intn(3) == 0 {
 		body.When = pCond{Kind: "const", B: false} // ignored by forEach
 	}
+	overwrites := false
+	if op.Query == "items" && len(items) >= 2 && r.Intn(2) == 0 {
+		overwrites = true
+		// the body overwrites the LAST item of the list it iterates: the items are those the list had when the forEach started
+		body.Children = append(body.Children, &pAct{Name: "overwrite", Order: 5,
+			Ops: []pOp{{Kind: "template", Path: fmt.Sprintf("items[%d]", len(items)-1), Tmpl: []tpart{{Lit: "done"}}}}})
+	}
 	op.Body = body
 	root := &pAct{Name: "r", Ops: []pOp{op, {Kind: "log", Tmpl: []tpart{{Lit: "after"}}}}}
 	c := execCase("foreach", root, data, hasFail)
@@ -110,6 +117,9 @@ func c14ForEach(r *rand.Rand) Case {
 				c.Fail = append(c.Fail, "loop variable "+vn+" still present after forEach finished")
 			}
 			for _, k := range []string{"flag", "items", "single", "keep"} {
+				if k == "items" && overwrites { // (what the body wrote there is the model's to compare)
+					continue
+				}
 				if !reflect.DeepEqual(fin[k], data[k]) {
 					c.Fail = append(c.Fail, "forEach disturbed unrelated data at "+k)
 				}
